@@ -61,6 +61,7 @@ fn debug_of(b: &Built) -> String {
         Built::Ins(s) => format!("{s:?}"),
         Built::Upd(s) => format!("{s:?}"),
         Built::Del(s) => format!("{s:?}"),
+        Built::With(s) => format!("{s:?}"),
     }
 }
 
@@ -70,6 +71,7 @@ fn equal_to_clone(b: &Built, c: &Built) -> bool {
         (Built::Ins(x), Built::Ins(y)) => x == y,
         (Built::Upd(x), Built::Upd(y)) => x == y,
         (Built::Del(x), Built::Del(y)) => x == y,
+        (Built::With(x), Built::With(y)) => x == y,
         _ => false,
     }
 }
@@ -80,6 +82,7 @@ fn clone_of(b: &Built) -> Built {
         Built::Ins(x) => Built::Ins(x.clone()),
         Built::Upd(x) => Built::Upd(x.clone()),
         Built::Del(x) => Built::Del(x.clone()),
+        Built::With(x) => Built::With(x.clone()),
     }
 }
 
